@@ -25,6 +25,17 @@ var rec = ev.For("C36", "exploration",
 	"case = one rapid-generated operation history against one of the four structures, replayed against a Go map/set model after every step; "+
 		"NON-TRIVIAL: rhh: history of >= 10 operations in which a Put triggered growth; bloom: a Merge of two filters that each hold >= 2 keys with different key sets; radix: a DeletePrefix with a non-empty prefix that removed >= 2 keys (an inner node) while other keys remain; SeriesIDSet: a binary set operation (Merge/MergeInPlace/And/AndNot/Diff/Intersects/Equals) or a serialization round trip on sets whose ids span >= 2 roaring containers (distinct high 16 bits); distinct by canonical rendering of the whole history")
 
+// sampleQuota spreads the few verbatim evidence samples over the four structures.
+var sampleQuota = map[string]int{"bloom": 1, "radix": 2, "rhh": 1, "idset": 2}
+
+func wantSample(structure string) bool {
+	if sampleQuota[structure] > 0 && rec.WantSample() {
+		sampleQuota[structure]--
+		return true
+	}
+	return false
+}
+
 func init() {
 	rec.Assume("rhh.HashMap: values are non-nil (Get returns nil for a missing key, Keys/Elem treat nil as an empty slot, as the tsi1 callers do); load factors 25..90 as used by callers (80, 90)")
 	rec.Assume("tsdb.SeriesIDSet: ids are < 2^32 — the implementation stores uint32(id) in a 32-bit roaring bitmap by explicit cast, and series ids are small sequence numbers in every caller; larger ids alias (2^32+5 is reported as 5) and are outside the generated domain")
